@@ -137,6 +137,17 @@ class Unknown(V):
 
 
 @dataclass(eq=False)
+class MapV(V):
+    """A dict display with constant keys."""
+
+    items: Dict[Any, Any] = field(default_factory=dict)
+    src: Optional[Path] = None
+
+    def __repr__(self):
+        return f"MapV({sorted(map(str, self.items))[:6]})"
+
+
+@dataclass(eq=False)
 class FuncV(V):
     """A lambda / nested function value together with the environment it closes over."""
 
@@ -252,6 +263,7 @@ class Interp:
         self._desc_cache: Dict[int, str] = {}
         self._pure_cache: Dict[int, bool] = {}
         self._split_cache: Dict[int, List[str]] = {}
+        self._modconst: Dict[Any, V] = {}
         self._is_str_cache: Dict[str, Set[Any]] = {}
         self._is_str_stack: List[str] = []
         self.depth = 0
@@ -728,6 +740,9 @@ class Interp:
             if len(v.items) < n and v.tail is not None:
                 return list(v.items) + [v.tail] * (n - len(v.items))
             return None
+        if isinstance(v, Obj) and getattr(v, "record_fields", None):
+            its_ = [v.fields.get(f_, Unknown(f"field {f_} not set")) for f_ in v.record_fields]
+            return its_ if len(its_) == n else None
         if isinstance(v, Union):
             cols: List[List[V]] = [[] for _ in range(n)]
             for a in v.alts:
@@ -758,6 +773,8 @@ class Interp:
             return [], (mk_union(tails) if tails else None)
         if isinstance(v, Const) and isinstance(v.value, (tuple, list)):
             return [Const(x) for x in v.value], None
+        if isinstance(v, Obj) and getattr(v, "record_fields", None):
+            return [v.fields.get(f_, Unknown(f"field {f_} not set")) for f_ in v.record_fields], None
         if isinstance(v, Obj):
             return None
         return None
@@ -1098,6 +1115,17 @@ class Interp:
                         pass
         if n.id == "DEFAULT_STR_STORAGE":
             return NumV("DEFAULT_STR_STORAGE")
+        # any other module-level binding of the defining modules: evaluated abstractly, once
+        for rel in ("coco/b09/parser.py", "coco/b09/elements.py", "coco/b09/visitors.py"):
+            mod = self.py.modules.get(rel)
+            if mod and n.id in mod.assigns:
+                key_ = (rel, n.id)
+                if key_ in self._modconst:
+                    return self._modconst[key_]
+                self._modconst[key_] = Unknown(f"recursive module constant {n.id}")
+                v_ = self.ev(mod.assigns[n.id], {}, owner)
+                self._modconst[key_] = v_
+                return v_
         return Unknown(f"name {n.id}")
 
     def ev_JoinedStr(self, n, env, owner):
@@ -1179,6 +1207,13 @@ class Interp:
         return Unknown("set display")
 
     def ev_Dict(self, n, env, owner):
+        if all(k is not None for k in n.keys):
+            ks = [self.ev(k, env, owner) for k in n.keys]
+            if all(isinstance(k, Const) for k in ks):
+                try:
+                    return MapV({k.value: self.ev(v, env, owner) for k, v in zip(ks, n.values)})
+                except TypeError:
+                    pass
         return Unknown("dict display")
 
     def ev_DictComp(self, n, env, owner):
@@ -1213,7 +1248,9 @@ class Interp:
             if isinstance(e, ast.Starred):
                 v = pre[ei] if ei in pre else self.ev(e.value, env, owner)
                 # a starred value that is one of several fixed lists: one display per alternative (keeps the order)
-                if isinstance(v, Union) and 1 < len(v.alts) <= 4 and all(isinstance(a_, Seq) and a_.tail is None for a_ in v.alts) and len(pre) < 3:
+                if isinstance(v, Const) and isinstance(v.value, (str, tuple, list)) and len(v.value) <= 8:
+                    v = Seq([Const(x_) for x_ in v.value])  # iterating a constant string / tuple
+                if isinstance(v, Union) and 1 < len(v.alts) <= 4 and all((isinstance(a_, Seq) and a_.tail is None) or (isinstance(a_, Const) and isinstance(a_.value, (str, tuple, list)) and len(a_.value) <= 8) for a_ in v.alts) and len(pre) < 3:
                     outs = []
                     for a_ in v.alts:
                         p2 = dict(pre)
@@ -1547,6 +1584,25 @@ class Interp:
             x = self.expand(b)
             if not isinstance(x, Operand):
                 return mk_union([self.subscript(a, sl, env, owner) for a in alts_of(x)])
+        if isinstance(b, MapV) and not isinstance(sl, ast.Slice):
+            k = self.ev(sl, env, owner)
+            keys = None
+            if isinstance(k, Const):
+                keys = [k.value]
+            else:
+                l_ = self.str_lits(k)
+                keys = sorted(l_) if l_ is not None else None
+            if keys is None:
+                return mk_union(list(b.items.values())) if b.items else Unknown("lookup in an empty dict")
+            outs_ = []
+            for kk in keys:
+                if kk in b.items:
+                    outs_.append(b.items[kk])
+                else:
+                    o_ = Unknown(f"KeyError {kk!r}")
+                    o_.keyerror = ("<dict>", kk)  # type: ignore[attr-defined]
+                    outs_.append(o_)
+            return mk_union(outs_)
         if isinstance(b, TableV):
             k = self.ev(sl, env, owner)
             lits = self.str_lits(k)
@@ -1707,6 +1763,10 @@ class Interp:
         kwargs = {k.arg: self.ev(k.value, env, owner) for k in n.keywords if k.arg}
         if isinstance(f, ast.Name):
             name = f.id
+            if name in env and isinstance(env[name], ClassRef) and env[name].name in self.py.classes:
+                return self.construct(env[name].name, args, kwargs, n.lineno, owner)
+            if name in env and isinstance(env[name], Union) and all(isinstance(a_, ClassRef) and a_.name in self.py.classes for a_ in env[name].alts):
+                return mk_union([self.construct(a_.name, list(args), dict(kwargs), n.lineno, owner) for a_ in env[name].alts])
             if name in env and isinstance(env[name], FuncV):
                 return self.apply_func(env[name], args, kwargs)
             if name in env and isinstance(env[name], Union) and all(isinstance(a_, FuncV) for a_ in env[name].alts):
@@ -1865,6 +1925,8 @@ class Interp:
             if key is not None:
                 self._method_cache[key] = (obj, r)
             return r
+        if isinstance(t, ClassRef) and t.name in self.py.classes:
+            return self.construct(t.name, args, kwargs, getattr(n, "lineno", 0), owner)
         if hasattr(t, "bound_cls"):
             cname, (ci, fn) = t.bound_cls
             return self.call_function(fn, [ClassRef(cname)] + args, self_obj=None, owner=ci.name, kwargs=kwargs)
@@ -1984,6 +2046,18 @@ class Interp:
         obj.ctor_kwargs = dict(kwargs)  # type: ignore[attr-defined]
         r = self.py.resolve_method(cls, "__init__")
         if r is None:
+            ci_ = self.py.classes.get(cls)
+            if ci_ is not None and any(b_ in ("NamedTuple",) for b_ in ci_.bases):
+                # record: positional / keyword arguments bind to the annotated fields in order, defaults apply
+                flds = [(st.target.id, st.value) for st in ci_.node.body if isinstance(st, ast.AnnAssign) and isinstance(st.target, ast.Name)]
+                for i_, (fname, dflt) in enumerate(flds):
+                    if i_ < len(args):
+                        obj.fields[fname] = args[i_]
+                    elif fname in kwargs:
+                        obj.fields[fname] = kwargs[fname]
+                    elif dflt is not None:
+                        obj.fields[fname] = self.ev(dflt, {}, owner)
+                obj.record_fields = [f_ for f_, _ in flds]  # type: ignore[attr-defined]
             return obj
         if self.depth > 60:
             return obj
